@@ -569,9 +569,15 @@ fn lex(dirty: bool) -> BoxedStrategy<String> {
     let illegal = (prop::collection::vec(pick(LEGAL.to_vec()), 0..=2), pick(ILLEGAL.to_vec()), prop::collection::vec(pick(LEGAL.to_vec()), 0..=2))
         .prop_map(|(a, b, c)| format!("{}{}{}", a.concat(), b, c.concat()));
     let any = prop::collection::vec(any::<char>(), 0..=5).prop_map(|v| v.into_iter().collect::<String>());
+    // long texts (tens to hundreds of bytes) of 1-, 2-, 3- and 4-byte characters, so that every byte
+    // offset of a message / buffer boundary falls inside a character in some case
+    let long = (prop::collection::vec(pick(vec!["a", "é", "€", "\u{1F600}", " ", "<", "&"]), 1..=3), 8usize..90, 0usize..4)
+        .prop_map(|(unit, times, lead)| format!("{}{}", "x".repeat(lead), unit.concat().repeat(times)));
     if dirty {
-        prop_oneof![5 => simple, 10 => legal, 1 => illegal, 1 => any].boxed()
+        let long_illegal = (long.clone(), pick(ILLEGAL.to_vec()), prop::bool::ANY).prop_map(|(l, b, front)| if front { format!("{b}{l}") } else { format!("{l}{b}") });
+        prop_oneof![5 => simple, 10 => legal, 1 => illegal, 1 => any, 1 => long, 1 => long_illegal].boxed()
     } else {
+        let legal = prop_oneof![10 => legal, 1 => long].boxed();
         let any_legal = any.prop_map(|s| s.chars().filter(|c| is_xml_char(*c)).collect::<String>());
         prop_oneof![5 => simple, 10 => legal, 1 => any_legal].boxed()
     }
